@@ -6,7 +6,7 @@ import RModel.Gen.LockUsers
 
   lockseq <debug|release> absent                 one process runs `acquire` alone to completion, then drops
   lockseq <debug|release> file <tok>*            … with a lock file whose text is the concatenation of the
-                                                 tokens:  x<hex> literal bytes | SELF own pid | NOW | NOW-k | NOW+k
+                                                 tokens:  x<hex> literal bytes | SELF own pid | OTHER pid of a live unrelated program | NOW | NOW-k | NOW+k
      → `<outcome> <file after acquire> <file after drop>`
         outcome  acquired | already-running:<SELF|pid> | eexist | io-error:<read|read-content|remove-stale|remove-orphaned> | panic
         file     absent | SELF:NOW | unchanged        after drop: gone | present | -  (no drop: acquire failed)
@@ -71,11 +71,15 @@ def relTime (word : List Char) (now : Nat) (cs : List Char) : Option Nat :=
   else if cs.take (word.length + 1) == word ++ ['+'] then (natOfChars (cs.drop (word.length + 1))).map (now + ·)
   else natOfChars cs
 
+/-- a live process that is not renamify (the harness spawns a `sleep`): by design its pid blocks like any live pid -/
+def otherPid : Nat := 77777
+
 def seqToken (t : String) : Option (List UInt8) :=
   match t.toList with
   | 'x' :: hex => hexBytes hex
   | cs =>
     if cs == "SELF".toList then some (decimal selfPid)
+    else if cs == "OTHER".toList then some (decimal otherPid)
     else if cs.take 3 == "NOW".toList then (relTime "NOW".toList seqNow cs).map decimal
     else none
 
@@ -86,7 +90,8 @@ def seqTokens : List String → Option (List UInt8)
     | some a, some b => some (a ++ b)
     | _, _ => none
 
-def showPidSeq (pid : Nat) : String := if pid == selfPid then "SELF" else toString pid
+def showPidSeq (pid : Nat) : String :=
+  if pid == selfPid then "SELF" else if pid == otherPid then "OTHER" else toString pid
 
 def showErrSeq : Err → String
   | .readFailed => "io-error:read"
@@ -107,7 +112,8 @@ def showFileSeq (s : State) : String :=
 
 /-- liveness as the harness process sees it: itself, and pid 0 (`kill(0, 0)` = own process group) unless the
     source excludes pid 0 (`pid != 0 && is_process_running(pid)`) -/
-def seqAlive (pid : Nat) : Bool := pid == selfPid || (pid == 0 && !Gen.LockUsers.liveNeverStale)
+def seqAlive (pid : Nat) : Bool :=
+  pid == selfPid || pid == otherPid || (pid == 0 && !Gen.LockUsers.liveNeverStale)
 
 def lockseq (debug : Bool) (cell : Option (List UInt8)) : String :=
   let s0 : State :=
@@ -440,6 +446,7 @@ def lockwit (debug : Bool) : String → String
 
 def dispatch : List String → Option String
   | ["lockbuild"] => some "debug"
+  | ["lockother", _] => some "stopped"
   | ["lockwit", name] => some (lockwit true name)
   | "lockseq" :: build :: "absent" :: [] =>
     some (lockseq (build == "debug") none)
